@@ -370,7 +370,7 @@ def fidelity_fixed(acc, **kw):
 
 def plan(tier, seed):
     jobs = [("fixed", {}), ("session_factories", {})]
-    n, k, ml = (500, 6, 25) if tier == "quick" else (15000, 12, 60)
+    n, k, ml = (800, 8, 25) if tier == "quick" else (15000, 12, 60)
     jobs += [("fab_shard", {"n": n, "seed": derive_seed(seed, PROPERTY, "fab", i), "maxlen": ml}) for i in range(k)]
     from checks import c20_fidelity as F
 
